@@ -558,15 +558,15 @@ impl<'a> DataOperator<'a> {
                 )),
             },
             DataOperator::EqualsInt(n) => Ok(format!("= {}", n)),
-            DataOperator::EqualsFloat(n) => Ok(format!("= {}", n)),
+            DataOperator::EqualsFloat(n) => Ok(format!("= {:?}", n)),
             DataOperator::GreaterThan(n) => Ok(format!("> {}", n)),
             DataOperator::GreaterThanOrEqual(n) => Ok(format!(">= {}", n)),
             DataOperator::LessThan(n) => Ok(format!("< {}", n)),
             DataOperator::LessThanOrEqual(n) => Ok(format!("<= {}", n)),
-            DataOperator::GreaterThanFloat(n) => Ok(format!("> {}", n)),
-            DataOperator::GreaterThanOrEqualFloat(n) => Ok(format!(">= {}", n)),
-            DataOperator::LessThanOrEqualFloat(n) => Ok(format!("<= {}", n)),
-            DataOperator::LessThanFloat(n) => Ok(format!("< {}", n)),
+            DataOperator::GreaterThanFloat(n) => Ok(format!("> {:?}", n)),
+            DataOperator::GreaterThanOrEqualFloat(n) => Ok(format!(">= {:?}", n)),
+            DataOperator::LessThanOrEqualFloat(n) => Ok(format!("<= {:?}", n)),
+            DataOperator::LessThanFloat(n) => Ok(format!("< {:?}", n)),
             DataOperator::ExactDatetime(d) => Ok(format!("= {}", d.to_rfc3339())),
             DataOperator::AfterDatetime(d) => Ok(format!("> {}", d.to_rfc3339())),
             DataOperator::AtOrAfterDatetime(d) => Ok(format!(">= {}", d.to_rfc3339())),
